@@ -1,6 +1,6 @@
 """part `libhdr` (C17): lib.c header code + archive.c member walk vs Model/LibHdr.lean, Model/Archive.lean
 (hand model + correspondence), and the end-to-end damage sweep on the real compiler."""
-import hashlib, os, shutil, struct, subprocess, tempfile
+import bisect, hashlib, os, re, shutil, struct, subprocess, tempfile
 from concurrent.futures import ThreadPoolExecutor
 from vlib import common
 from vlib.common import VERIF
@@ -576,6 +576,16 @@ def run_e2e(ctx, build):
             return {}
         made[unit + ".ao"] = open(ao, "rb").read()
         made[unit + ".fm"] = open(os.path.join(d, unit + ".fm"), "rb").read()
+    # FOAM text with `;line` comments (-Zdb)
+    d = tempfile.mkdtemp(dir=base)
+    open(os.path.join(d, "hellodb.as"), "w").write(SRC["hello.as"])
+    rc, out, err = common.run(cmd + ["-Zdb", "-Ffm", "hellodb.as"], cwd=d, timeout=120)
+    if rc == 0 and os.path.exists(os.path.join(d, "hellodb.fm")):
+        made["hellodb.fm"] = open(os.path.join(d, "hellodb.fm"), "rb").read()
+    else:
+        ctx.violation("libhdr-e2e|cannot-compile-library|zdb", "aldor -Zdb -Ffm fails: rc=%s %s" % (rc, (out + err)[-400:]),
+                      {"kind": "setup", "rc": rc})
+        return {}
     ard = tempfile.mkdtemp(dir=base)
     for u in ("mylib", "shapes", "tally"):
         open(os.path.join(ard, u + ".ao"), "wb").write(made[u + ".ao"])
@@ -597,7 +607,9 @@ def run_e2e(ctx, build):
         ("ao-run", "hello.ao", {}, ["-Ginterp"], "hello.ao", "ao"),
         ("ao-to-c", "hello.ao", {}, ["-Fc", "-Ffm"], "hello.ao", "ao"),
         ("al-import", "libmine.al", {"client2.as": cl("client2.as")}, ["-Ginterp"], "client2.as", "al"),
+        ("al-to-c", "libmine.al", {"client2.as": cl("client2.as")}, ["-Fc"], "client2.as", "al"),
         ("fm-run", "hello.fm", {}, ["-Ginterp"], "hello.fm", "fm"),
+        ("fmdb-run", "hellodb.fm", {}, ["-Ginterp"], "hellodb.fm", "fmdb"),
     ]
     jobs = []      # (scenario index, damage kind, description, bytes)
     refs = []
@@ -621,22 +633,42 @@ def run_e2e(ctx, build):
             region = lambda off, data=data, mem=mem: al_region(data, mem, off)
             dense = 8 + 60
             bounds = []
+            # every member boundary +-3 bytes, and the last 1..6 bytes of the archive (inside the last
+            # member's last section)
+            bounds += [n - k for k in range(1, 7)]
+            for (_, hp, dp, sz) in mem:
+                for edge in (hp, dp, dp + sz, dp + sz + (sz & 1)):
+                    bounds += [edge + k for k in range(-3, 4)]
             for (_, hp, dp, sz) in mem:
                 bounds += list(range(hp, hp + 60, 1 if thorough else 3)) + list(range(dp, dp + HDR, 1 if thorough else 4))
                 hh = parse_ao_header(data, dp)
                 bounds += [dp + o + d for (_, o, l) in hh["tab"][:hh["ns"]] for d in (0, 1)]
+        elif kind == "fmdb":
+            # `;` comments run to the end of the line
+            spans = [(m.start(), m.end()) for m in re.finditer(rb";[^\n]*\n?", data)]
+            starts = [a for a, _ in spans]
+            def region(off, spans=spans, starts=starts):
+                i = bisect.bisect_right(starts, off) - 1
+                return "fm-comment" if i >= 0 and spans[i][0] <= off < spans[i][1] else "fm-text"
+            dense = 0
+            bounds = []
+            pick = spans[:3] + spans[len(spans) // 2:len(spans) // 2 + 2] + spans[-2:]
+            for a, b in (spans if thorough else pick):
+                bounds += list(range(a - 1, b + 2))
         else:
             region = lambda off: "fm-text"
             dense = 0
             bounds = []
-        quota_t = n if thorough else {"ao": 330, "al": 420, "fm": 120}[kind]
-        quota_s = n if thorough else {"ao": 260, "al": 380, "fm": 100}[kind]
+        quota_t = n if thorough else {"ao": 330, "al": 420, "fm": 120, "fmdb": 150}[kind]
+        quota_s = n if thorough else {"ao": 260, "al": 380, "fm": 100, "fmdb": 60}[kind]
+        if sname == "al-to-c" and not thorough:
+            quota_t, quota_s = 200, 120
         if sname in ("ao-to-c", "loop-import") and not thorough:
             quota_t, quota_s = 200, 200
         # truncations: every length in the header and section table, a sample elsewhere
         tl = sorted(set(list(range(0, min(dense, n))) + sample_offsets(rng, quota_t, dense, n, bounds)))
         for t in tl:
-            jobs.append((si, "trunc-" + region(t), "truncated to %d of %d bytes" % (t, n), ("trunc", t), data[:t]))
+            jobs.append((si, "trunc-" + region(t), "truncated to %d of %d bytes" % (t, n), ("trunc", t)))
         # substitutions: every offset of header and table (several values), a sample elsewhere
         for off in list(range(0, min(dense, n))) + sample_offsets(rng, quota_s, dense, n, bounds):
             b = data[off]
@@ -647,15 +679,18 @@ def run_e2e(ctx, build):
                 if thorough and off % 4 == 0: vals += [b ^ 0xff, 0]
             for v in sorted(set(vals)):
                 if v != b:
-                    jobs.append((si, "subst-" + region(off), "byte %d changed from %d to %d" % (off, b, v), ("subst", off, v),
-                                 data[:off] + bytes([v]) + data[off + 1:]))
+                    jobs.append((si, "subst-" + region(off), "byte %d changed from %d to %d" % (off, b, v), ("subst", off, v)))
     def work(j):
-        si, dk, desc, dmg, blob = j
+        # (the damaged bytes are made here, not kept in the job list: the thorough list has several 10^5 entries)
+        si, dk, desc, dmg = j
         sname, fname, others, flags, arg, kind = scenarios[si]
         if refs[si][0] != 0: return None
+        data = made[fname]
+        blob = data[:dmg[1]] if dmg[0] == "trunc" else data[:dmg[1]] + bytes([dmg[2]]) + data[dmg[1] + 1:]
         files = dict(others); files[fname] = blob
         res = run_compiler(cmd, base, files, flags, arg, 10)
-        return classify(refs[si], res, loop=arg is None), res
+        oc = classify(refs[si], res, loop=arg is None)
+        return oc, (res if oc in BAD else None)
     with ThreadPoolExecutor(16) as ex:
         results = list(ex.map(work, jobs))
     hist = {}
@@ -663,7 +698,7 @@ def run_e2e(ctx, build):
     fine = {}
     for j, r in zip(jobs, results):
         if r is None: continue
-        si, dk, desc, dmg, blob = j
+        si, dk, desc, dmg = j
         outcome, res = r
         sname = scenarios[si][0]
         hist.setdefault(sname, {}).setdefault(outcome, 0)
